@@ -237,7 +237,9 @@ func c05(p *core.Program, r *core.Report) {
 				ev := &eng.ConstEval{Inline: pureTableHelper}
 				ev.Override = func(fn *ssa.Function, v ssa.Value, args []eng.CVal) (eng.CVal, bool) {
 					if c, ok := v.(*ssa.Call); ok {
-						if o := eng.CalleeObj(c); o != nil && len(args) > 0 && args[0].K == eng.CType {
+						// methods of the geometry (not helpers of the package that are handed it)
+						isMethod := c.Call.IsInvoke() || (c.Call.StaticCallee() != nil && c.Call.StaticCallee().Signature.Recv() != nil)
+						if o := eng.CalleeObj(c); o != nil && isMethod && len(args) > 0 && args[0].K == eng.CType {
 							switch o.Name() {
 							case "Layout":
 								return eng.IntV(layout), true
